@@ -217,6 +217,16 @@ class Model:
         return arr(tuple(letter[ch] for ch in out)), contracted
 
     @staticmethod
+    def trailing_all(arrays, p):
+        """like `trailing`, for several data operands: every operand that carries the batch axis must carry it in front"""
+        for a in arrays:
+            La = labels_of(a)
+            if "B" in La and La[0] != "B":
+                raise AxisViolation(f"an operand laid out as {La} reaches the primitive with its batch axis not leading: the primitive reads the trailing axes as (sequence, features)")
+        L = labels_of(arrays[0])
+        return arr(L), set(l for l in L if l != "B")
+
+    @staticmethod
     def tile(arrays, p):
         L = labels_of(arrays[0])
         reps = p.get("reps")
@@ -357,7 +367,7 @@ class Model:
         return arr(L[:pos] + ("N",) + L[pos:]), set()
 
 
-KINDS: Dict[str, Callable[..., Any]] = {k: getattr(Model, k) for k in ("elementwise", "broadcast", "tile", "einsum", "attention", "matmul", "dot", "whole", "outer", "diag", "second", "trailing", "along", "preserve", "reduce", "size", "insert", "stack", "concat", "squeeze", "transpose", "split", "unstack", "take", "diagonal", "linspace")}
+KINDS: Dict[str, Callable[..., Any]] = {k: getattr(Model, k) for k in ("elementwise", "broadcast", "trailing_all", "tile", "einsum", "attention", "matmul", "dot", "whole", "outer", "diag", "second", "trailing", "along", "preserve", "reduce", "size", "insert", "stack", "concat", "squeeze", "transpose", "split", "unstack", "take", "diagonal", "linspace")}
 
 
 class Spec:
